@@ -246,23 +246,28 @@ def run(work, tier, replay=None):
                    "INVARIANTS DisconnectAtMostOnce ReturnedMeansDisconnected NeverStuck\nPROPERTY HandleReturns\n" % (b, d))
             r = work.tlc("connlife-lead", "ConnLife", cfg, workers=2, timeout=600, dump=False)
             leads.append(dict(design=name, refuted=("violated" in r) or ("Deadlock" in open(r["log"]).read())))
-        # the send path (ConnSend.tla): a member that stopped reading, a peer that keeps relaying, a reset.  The repaired
-        # sender ("until") never leaves anyone stuck; the two earlier designs are refuted (their counterexample is what
-        # scenarios/l2_D19_* replays on the real server)
+        # the send path (ConnSend.tla): a member that stopped reading, a peer that keeps relaying, a reset - or none.
+        # The repaired sender (keeps emptying the queue until the handler is done; every write has a deadline) never
+        # leaves anyone stuck, whether the stalled client's connection is reset in the end or not; the earlier designs
+        # are refuted (their counterexamples are what scenarios/l2_D19_* and l2_D20_* replay on the real server)
+        designs = [("until", True, True, True, "code"), ("until", True, False, True, "code, the stall never ends"),
+                   ("until", False, True, True, "no write deadline, the stall ends"),
+                   ("once", True, True, False, "send_path_drain_once(D19)"), ("cancel", True, True, False, "send_path_drain_cancel(D19)"),
+                   ("until", False, False, False, "no_write_deadline(D20)")]
         for (cs, cn) in ([(3, 8)] if tier == "quick" else [(2, 6), (3, 8), (4, 12), (6, 16)]):
-            for design in ("until", "once", "cancel"):
-                cfg = ('SPECIFICATION Spec\nCONSTANTS\n  S = %d\n  N = %d\n  Drain = "%s"\nINVARIANT TypeOK\n'
-                       'PROPERTIES HandlerReturns PeerGetsOn RemovedOnce\n' % (cs, cn, design))
-                r = work.tlc("connsend-%s" % design, "ConnSend", cfg, workers=2, timeout=600, dump=False)
+            for (drain, dl, rs, good, name) in designs:
+                cfg = ('SPECIFICATION Spec\nCONSTANTS\n  S = %d\n  N = %d\n  Drain = "%s"\n  Deadline = %s\n  Resets = %s\nINVARIANT TypeOK\n'
+                       'PROPERTIES HandlerReturns PeerGetsOn RemovedOnce\n' % (cs, cn, drain, str(dl).upper(), str(rs).upper()))
+                r = work.tlc("connsend", "ConnSend", cfg, workers=2, timeout=600, dump=False)
                 if r.get("timeout"):
                     raise Inconclusive("ConnSend model check timed out")
                 dead = ("Deadlock" in open(r["log"]).read()) or ("violated" in r)
-                if design == "until":
+                if good:
                     if dead or "error" in r:
-                        raise Inconclusive("TLC refutes the repaired send path on ConnSend (S=%d, N=%d): %s" % (cs, cn, r.get("violated", r.get("error", "deadlock"))))
-                    mc_runs.append(dict(K="ConnSend S=%d" % cs, Q=cn, distinct=r.get("distinct", 0), generated=r.get("generated", 0), violated=None))
+                        raise Inconclusive("TLC refutes the send path (%s) on ConnSend (S=%d, N=%d): %s" % (name, cs, cn, r.get("violated", r.get("error", "deadlock"))))
+                    mc_runs.append(dict(K="ConnSend S=%d %s" % (cs, name), Q=cn, distinct=r.get("distinct", 0), generated=r.get("generated", 0), violated=None))
                 else:
-                    leads.append(dict(design="send_path_drain_%s(D19) S=%d N=%d" % (design, cs, cn), refuted=dead))
+                    leads.append(dict(design="%s S=%d N=%d" % (name, cs, cn), refuted=dead))
         if not all(l["refuted"] for l in leads):
             raise Inconclusive("a design known to be wrong is not refuted by the specification: %s" % [l["design"] for l in leads if not l["refuted"]])
         work.log("ConnLife: %s; unrepaired designs refuted: %s" % (
